@@ -150,8 +150,35 @@ def make_config(plugins=True, every=True, **kw):
     return c
 
 
+class DecodeTimeout(BaseException):
+    """the decoder did not come back within DECODE_LIMIT seconds"""
+
+
+DECODE_LIMIT = 20.0
+
+
+def _on_alarm(signum, frame):
+    raise DecodeTimeout()
+
+
 def impl_decode(data, plugins=True, config=None):
-    """Run the real parsePEL.  Returns dict(kind=..., eid, doc (OrderedDict), offsets, final_index, exc, stderr)."""
+    """Run the real parsePEL.  Returns dict(kind=..., eid, doc (OrderedDict), offsets, final_index, exc, stderr).
+    kind "hang": the decoder was still running after DECODE_LIMIT seconds (a decode takes milliseconds)."""
+    import signal
+    old = signal.signal(signal.SIGALRM, _on_alarm)
+    signal.setitimer(signal.ITIMER_REAL, DECODE_LIMIT)
+    try:
+        return _impl_decode(data, plugins, config)
+    except DecodeTimeout:
+        peltool = _patch()
+        peltool.prettyPrint = peltool._verif_orig_pretty
+        return dict(kind="hang", exc="DecodeTimeout", msg="no result after %.0f s" % DECODE_LIMIT, offsets=list(_offsets), final_index=-1, stderr="", stdout="")
+    finally:
+        signal.setitimer(signal.ITIMER_REAL, 0)
+        signal.signal(signal.SIGALRM, old)
+
+
+def _impl_decode(data, plugins=True, config=None):
     peltool = _patch()
     from pel.datastream import DataStream
     cfg = config or make_config(plugins)
@@ -163,7 +190,7 @@ def impl_decode(data, plugins=True, config=None):
         with contextlib.redirect_stderr(err), contextlib.redirect_stdout(out):
             eid, js = peltool.parsePEL(stream, cfg, False)
     except BaseException as e:  # noqa: BLE001 - SystemExit/KeyboardInterrupt classes are recorded too
-        if isinstance(e, KeyboardInterrupt):
+        if isinstance(e, (KeyboardInterrupt, DecodeTimeout)):
             raise
         return dict(kind="reject", exc=type(e).__name__, msg=str(e)[:200], offsets=list(_offsets), final_index=stream.index,
                     stderr=err.getvalue(), stdout=out.getvalue())
